@@ -703,6 +703,25 @@ theorem needs_no_goto_from_node :
 example : outOf (lastId lR) (edgesOfT rowsL) = exitsEdges exL lR :=
   out_edges_order_of_join_free exL rowsL rowsL_ok (by decide +kernel) lR (Reach.start rfl)
 
+/-- reachability is needed in the per-node statements: the unreachable node of `exG` has an exit to the
+first node, the sheet has no edge for it -/
+theorem needs_reachable :
+    outOf (lastId gZ) (edgesOfT rowsG) = [] ∧ (exitsEdges exG gZ).length = 1 :=
+  ⟨by decide +kernel, by decide +kernel⟩
+
+/-- the join-free hypothesis is needed: the sheet of `exB` has a row with two edges, and the order changed -/
+theorem needs_join_free :
+    (¬ ∀ r ∈ rowsB, r.edges.length ≤ 1) ∧ outOf (lastId bR) (edgesOfT rowsB) ≠ exitsEdges exB bR :=
+  ⟨by decide +kernel, by decide +kernel⟩
+
+/-- `unreachable_not_exported` is about the node `find_node` returns for its uuid: a second node with the
+uuid of a reachable one is not reachable (it can never be found), yet rows carry "its" uuid -/
+theorem needs_canonical :
+    let f : FlowX Nat := [⟨0, "a".toList, [("r".toList, none)], [([], none)]⟩, ⟨0, "b".toList, [("s".toList, none)], [([], none)]⟩]
+    findNode f 0 ≠ some ⟨0, "b".toList, [("s".toList, none)], [([], none)]⟩ ∧
+    (toRowsT f).toOption.map (fun rows => rows.map (·.nodeId)) = some [some 0] := by
+  decide +kernel
+
 /-! #### errors -/
 
 /-- a reachable exit names a uuid that is no node of the flow: `find_node` raises -/
